@@ -269,7 +269,12 @@ fn exhaustive(ctx: &Ctx, rep: &mut Report, depth: usize, r: &mut Rng) {
 fn inert_line(r: &mut Rng, open: &Option<(u8, u8, Option<u8>)>, ctr: u64) -> Line {
     match r.below(8) {
         0 => (nmea_ref::mk(1, 1, None, b"15RTgt0PAso;90TKcjM8h6g208CQ", 0), true),
-        1 => (nmea_ref::mk(1, 1, open.and_then(|o| o.2), b"zzzz", 0), true),
+        1 => {
+            // fails half-way through unarmoring (valid prefix, invalid last character)
+            let mut pl = armor_chars(r, 27);
+            pl.push(b'~');
+            (nmea_ref::mk(1, 1, open.and_then(|o| o.2), &pl, 0), true)
+        }
         2 => {
             let mut b = Build::simple(1, 1, None, b"A", b"15RTgt0PAso;90TKcjM8h6g208CQ", 0);
             b.tag = Some(b"c:1".to_vec());
@@ -321,6 +326,14 @@ fn random_histories(ctx: &Ctx, rep: &mut Report, r: &mut Rng) {
             ctr += 1;
             if r.chance(2, 5) {
                 h.push(inert_line(r, &open, ctr));
+                continue;
+            }
+            if r.chance(1, 6) {
+                // a decodable unfragmented message with decoding on: its decoded content makes
+                // any residue of earlier lines visible
+                let br = r.pick(crate::gen::BRANCHES);
+                let (chars, fill) = crate::gen::gen_message(br, r).to_armor();
+                h.push((nmea_ref::mk(1, 1, None, &chars, fill), true));
                 continue;
             }
             // mostly correct progress of groups, sometimes a new opener
